@@ -48,6 +48,11 @@ func main() {
 			usage()
 		}
 		os.Exit(runCheck(fs.Arg(0), *tier))
+	case "renamelocals":
+		fs := flag.NewFlagSet("renamelocals", flag.ExitOnError)
+		fs.StringVar(&repoDir, "repo", repoDir, "scratch worktree to rewrite in place")
+		fs.Parse(os.Args[2:])
+		renameLocals(fs.Args())
 	case "dump":
 		fs := flag.NewFlagSet("dump", flag.ExitOnError)
 		fs.StringVar(&repoDir, "repo", repoDir, "repository directory")
